@@ -967,8 +967,14 @@ def check_duplicates(tier, seed):
         # species whose names differ only in letter case are different species (para-H2 / PH2, ortho-H2 / OH2) in every mode
         [(["pH2", "H+"], ["oH2", "H+"], RT.GAS_TWOBODY), (["PH2", "H+"], ["OH2", "H+"], RT.GAS_TWOBODY), (["H+", "pH2"], ["H+", "oH2"], RT.GAS_TWOBODY)],
     ]
-    nd = len(directed)
-    for h in range(nd + (60 if tier == "quick" else 600)):
+    # species multiplicity is part of a reaction's identity in every mode (H + H -> H2 is not H -> H2)
+    directed.append([(["H", "H"], ["H2"], RT.GAS_TWOBODY), (["H"], ["H2"], RT.GAS_TWOBODY), (["H", "H"], ["H2", "H2"], RT.GAS_TWOBODY), (["H", "H"], ["H2"], RT.GAS_TWOBODY),
+                     (["H2", "H"], ["H", "H", "H"], RT.GAS_TWOBODY), (["H2", "H", "H"], ["H", "H", "H"], RT.GAS_TWOBODY)])
+    # the first three directed lists open the run, the later ones close it: the seeded random lists in between are the ones every
+    # earlier regression saw (adding a directed list must not shift the random stream)
+    nd, late = 3, directed[3:]
+    nrand = 60 if tier == "quick" else 600
+    for h in range(nd + nrand + len(late)):
         fresh()
         variant = h % 6      # 0,1: plain; 2: some reactions of UNKNOWN type (KROME-like); 3: electron spelled e- and E;
         #                      4: a species together with its own ice form / ion; 5: the same Reaction object held several times
@@ -992,11 +998,11 @@ def check_duplicates(tier, seed):
                 reacs.append(rnd.choice(reacs))          # the very same object again (e.g. a list concatenated with itself)
                 continue
             reacs.append(Reaction(rs, ps, tmin, tmax, float(rnd.randint(1, 5)), reaction_type=rnd.choice([RT.GAS_TWOBODY, RT.GAS_TWOBODY, RT.GAS_PHOTON] + ([RT.UNKNOWN] * 2 if variant == 2 else []))))
-        if h < nd:
-            reacs = [Reaction(list(a), list(b), -1.0, -1.0, 1.0, reaction_type=t) for a, b, t in directed[h]]
+        if h < nd or h >= nd + nrand:
+            reacs = [Reaction(list(a), list(b), -1.0, -1.0, 1.0, reaction_type=t) for a, b, t in (directed[h] if h < nd else late[h - nd - nrand])]
         net = Network(reacs)
         stages = [("built", (None, "brief", "minimal", "short"))]
-        if variant in (0, 1) and h >= nd:
+        if variant in (0, 1) and nd <= h < nd + nrand:
             stages.append(("edited-in-place", (None, "minimal")))
         for stage, modes in stages:
           if stage == "edited-in-place":
